@@ -366,7 +366,7 @@ PROPS = {
     'C13': {'legs': [V('book'), V('market'), V('env'), V('menv')], 'design': '§5 C13'},
     'C14': {'legs': [V('market'), V('menv')], 'design': '§5 C14'},
     'C16': {'legs': [V('agents')], 'design': '§5 C16'},
-    'C17': {'legs': [], 'design': '§5 C17'},
+    'C17': {'legs': [V('agents')], 'design': '§5 C17'},
     'C18': {'legs': [V('py'), V('book'),
                      {'engine': 'python', 'name': 'cpython_orderbook', 'n': 60, 'bound': '60 seeded random call sequences (5-40 calls: place incl. off-grid and market, cancel, modify, toggles) on bourse.core.OrderBook through the compiled extension module under CPython: ids, documented tuple positions and encodings, ValueError / OverflowError leave the object unchanged, every getter equals the value recomputed from get_orders()'}],
             'design': '§5 C18'},
@@ -655,29 +655,32 @@ def main():
     cfg = PROPS[pid]
     known = load_known()
     bounded = []
-    try:
-        legs = []
-        for leg in cfg['legs']:
+    legs = []
+    kani_res = []
+    # a leg that cannot be decided (front-end error, lost anchor, resource limit ...) does not stop the other legs: an execution of the real code
+    # that fails (Kani harness, bounded stand-in) or a refuted obligation of another unit is still a violation; without one the run is undecided (exit 2)
+    undecided = []
+    for leg in cfg['legs']:
+        try:
             if leg['engine'] in ('replay', 'python'):
                 bounded.append(run_bounded(pid, leg, seed))
-                continue
-            if leg['engine'] == 'derive':
+            elif leg['engine'] == 'derive':
                 legs.append(decide_derive_leg(pid, leg, seed, log))
-                continue
-            if leg['engine'] == 'verus':
+            elif leg['engine'] == 'verus':
                 info = decide_verus_leg(pid, leg, a.tier, seed, log)
                 info['canary'] = run_canaries(leg, pid, log) if leg.get('canary', True) else {'skipped': 'variant of a unit whose canaries run under the base unit', 'vacuous': []}
                 if info['canary']['vacuous']:
                     raise Undecided('vacuity canary verified (contradictory precondition?) for: %s' % ', '.join(info['canary']['vacuous']))
                 legs.append(info)
+        except Undecided as e:
+            undecided.append(str(e))
+    try:
         kani_res = run_kani(pid, seed, a.tier)
-        total = sum(len(i['mine']) for i in legs) + len(kani_res)
-        if total == 0:
-            raise Undecided('no obligation carries the tag of %s (vacuous check)' % pid)
     except Undecided as e:
-        print('UNDECIDED property=%s: %s' % (pid, e))
-        write_evidence(pid, a.tier, seed, t0, [], notes, undecided=str(e))
-        return 2
+        undecided.append(str(e))
+    total = sum(len(i['mine']) for i in legs) + len(kani_res)
+    if total == 0 and not undecided:
+        undecided.append('no obligation carries the tag of %s (vacuous check)' % pid)
     refuted = [f for i in legs for f in i['refuted']]
     for k in kani_res:
         if k['status'] == 'failed':
@@ -735,6 +738,13 @@ def main():
                 print('     %s %s | %s' % (w['label'] or '', w['origin'], w['text'][:140]))
         print('VIOLATION property=%s replay=%s%s' % (pid, path, '' if wit else ' no-failing-input-found'))
         rc = 1
+    if undecided and rc == 0:
+        print('UNDECIDED property=%s: %s' % (pid, '; '.join(undecided)))
+        write_evidence(pid, a.tier, seed, t0, [], notes, undecided='; '.join(undecided))
+        return 2
+    if undecided:
+        notes.append('legs left undecided on this tree (the violation above comes from the other legs): ' + '; '.join(undecided))
+        print('note: undecided legs: %s' % '; '.join(undecided)[:400])
     write_evidence(pid, a.tier, seed, t0, legs, notes, refuted=refuted, new=new, known=kf_report, kf_obl=kf_obl, bounded=bounded, kani=kani_res)
     if rc == 0:
         ev = json.load(open(os.path.join(EVID, pid + '.json')))
